@@ -194,3 +194,60 @@ def to_case(prop):
             return filters_supports.to_case(ob)
         return None
     return tc
+
+
+# ------------------------------------------------------------------------------------------ constructors that only store their arguments
+# The per-method contracts read `self.coeff`, `self.num_vectors`, `self.order`, ... ; the configuration layer (C08) hands the user's values
+# to these constructors. Each is under contract: every argument is stored, unchanged, under the attribute the methods read; the only
+# rejection is the documented one (Stack: num_vectors < 1).
+# (module, class, {attribute: parameter}, raises clause or None, sorts of the parameters, properties served)
+CTORS = [
+    ("pre", "Dither", {"coeff": "coeff"}, None, {"coeff": "real"}, ("C18",)),
+    ("pre", "Preemphasize", {"coeff": "coeff"}, None, {"coeff": "real"}, ("C18",)),
+    ("post", "Stack", {"num_vectors": "num_vectors", "time_axis": "time_axis", "_pad_mode": "pad_mode", "_pad_kwargs": "kwargs"},
+     "num_vectors < 1", {"num_vectors": "int", "time_axis": "int", "pad_mode": "opaque", "kwargs": "opaque"}, ("C15",)),
+    ("filters", "GammaWindow", {"order": "order", "peak": "peak"}, None, {"order": "int", "peak": "real"}, ("C20",)),
+    ("scales", "LinearScaling", {"low_hz": "low_hz", "slope_hz": "slope_hz"}, None, {"low_hz": "real", "slope_hz": "real"}, ("C19",)),
+]
+
+
+def generate_ctor(prop, idx):
+    from contracts.registry import run_contract
+    from contracts.torch_wrappers import h_super
+    mod, cls, attrs, raises, sorts, _ = CTORS[idx]
+
+    def setup(ex, st):
+        api.mk_obj(st, "self", cls, {})
+        args = {}
+        for p, srt in sorts.items():
+            args[p] = Opaque("ARG_" + p, "arg") if srt == "opaque" else api.sym(p, srt)
+        st.env.update(args)
+        ex.ctx = dict(args=args)
+
+    def stored(ev):
+        f = {k[1]: v for k, v in ev.st.fields.items() if k[0] == "self"}
+        if set(f) != set(attrs):
+            return z3.BoolVal(False)
+        conj = []
+        for a, p in attrs.items():
+            want = ev.ex.ctx["args"][p]
+            conj.append(_same(ev, f[a], want))
+        return z3.And(*conj)
+
+    c = Contract(target=f"{mod}:{cls}.__init__", uses=["A-PYSEM"], consts={"STORED": SpecFn(stored)},
+                 handlers={"super": h_super, "opaque.__init__": lambda ex, st, o, args, kwargs, node, ev: None},
+                 raises=({"ValueError": raises} if raises else {}),
+                 ensures=[("every_argument_stored_unchanged_under_the_attribute_the_methods_read_and_nothing_else", "STORED()")])
+    return run_contract(prop, (mod, f"{cls}.__init__"), c, [("", setup)], name="constructors", fname=f"{cls}.__init__")
+
+
+def unit_ctors(prop):
+    def unit(tier, known):
+        from contracts.registry import run_parallel
+        jobs = [("contracts.accessors", "generate_ctor", (prop, i)) for i, r in enumerate(CTORS) if prop in r[5]]
+        import importlib
+        mod, fn = {"C15": ("contracts.post_stack", "to_case"), "C18": ("contracts.pre", "to_case"), "C20": ("contracts.windows", "to_case_gamma"),
+                   "C19": ("contracts.scales", "to_case")}[prop]
+        return run_parallel("constructors", jobs, to_case=getattr(importlib.import_module(mod), fn), replay_module="rtc." + prop.lower())
+    unit.__name__ = "constructors"
+    return unit
